@@ -7,6 +7,13 @@ package main
 //   compileAssigns        what (*Compiler).Compile assigns through its receiver (nothing truncates the code,
 //                         nothing resets c.current: no rollback)
 //   reloadCopiesGlobals   reloadCode copies the old globals into the freshly loaded main code
+//   compileOnlyRestores   per compile-only field of compiler.go (Code.pipeActive, Code.loops, Code.symbols,
+//                         loop.pendingSwitchValues, Compiler.current): does EVERY compile function that sets it
+//                         reset it in a deferred function (so a compile error cannot leave it set)?
+//   startClearsHaltUnconditionally  (*VirtualMachine).start clears vm.halt at the top level of its body,
+//                         not only under a condition on the context
+//   loadsFunctionConstantsEveryRun  runCodeInternal's loop over the function constants of the code (vm.loadCode
+//                         of each *compiler.Function) is at the top level of its body: executed by every Run
 
 import (
 	"go/ast"
@@ -107,8 +114,126 @@ func c18_genC18(repo string) string {
 		}
 		return true
 	})
+	// --- vm.start clears the halt flag for every context
+	start := c18FindFunc(vmf, "VirtualMachine", "start")
+	clearsHalt := false
+	for _, st := range start.Body.List {
+		switch x := st.(type) {
+		case *ast.AssignStmt:
+			if len(x.Lhs) == 1 && len(x.Rhs) == 1 && c18Expr(fset, x.Lhs[0]) == "vm.halt" && c18Expr(fset, x.Rhs[0]) == "0" {
+				clearsHalt = true
+			}
+		case *ast.ExprStmt:
+			if c, ok := x.X.(*ast.CallExpr); ok && c18Expr(fset, c.Fun) == "atomic.StoreInt32" && len(c.Args) == 2 &&
+				c18Expr(fset, c.Args[0]) == "&vm.halt" && c18Expr(fset, c.Args[1]) == "0" {
+				clearsHalt = true
+			}
+		}
+	}
+	// --- runCodeInternal loads the function constants on every run
+	rci := c18FindFunc(vmf, "VirtualMachine", "runCodeInternal")
+	loadsEveryRun := false
+	for _, st := range rci.Body.List {
+		fs, ok := st.(*ast.ForStmt)
+		if !ok {
+			continue
+		}
+		isConstLoop, loads := strings.Contains(c18Expr(fset, fs.Cond), "ConstantsCount"), false
+		ast.Inspect(fs.Body, func(n ast.Node) bool {
+			if c, ok := n.(*ast.CallExpr); ok && c18Expr(fset, c.Fun) == "vm.loadCode" {
+				loads = true
+			}
+			return true
+		})
+		if isConstLoop && loads {
+			loadsEveryRun = true
+		}
+	}
+	// --- compile-only state: set sites and deferred resets, per compile function
+	compFile := parse("compiler/compiler.go")
+	fieldOf := func(e ast.Expr) string {
+		if se, ok := e.(*ast.SelectorExpr); ok {
+			switch se.Sel.Name {
+			case "pipeActive", "symbols", "current", "pendingSwitchValues":
+				return se.Sel.Name
+			}
+		}
+		return ""
+	}
+	restores := map[string]bool{}
+	for _, d := range compFile.Decls {
+		fd, ok := d.(*ast.FuncDecl)
+		if !ok || fd.Body == nil || !strings.HasPrefix(fd.Name.Name, "compile") {
+			continue
+		}
+		sets, resets := map[string]bool{}, map[string]bool{}
+		var walk func(n ast.Node, deferred bool)
+		walk = func(n ast.Node, deferred bool) {
+			ast.Inspect(n, func(m ast.Node) bool {
+				switch x := m.(type) {
+				case *ast.DeferStmt:
+					if fl, ok := x.Call.Fun.(*ast.FuncLit); ok {
+						walk(fl.Body, true)
+					} else if se, ok := x.Call.Fun.(*ast.SelectorExpr); ok && se.Sel.Name == "end" {
+						resets["loops"] = true
+					}
+					return false
+				case *ast.AssignStmt:
+					for _, l := range x.Lhs {
+						if f := fieldOf(l); f != "" {
+							if deferred {
+								resets[f] = true
+							} else {
+								sets[f] = true
+							}
+						}
+					}
+				case *ast.IncDecStmt:
+					if f := fieldOf(x.X); f != "" {
+						if deferred {
+							resets[f] = true
+						} else {
+							sets[f] = true
+						}
+					}
+				case *ast.CallExpr:
+					if se, ok := x.Fun.(*ast.SelectorExpr); ok {
+						if se.Sel.Name == "startLoop" && !deferred {
+							sets["loops"] = true
+						}
+						if se.Sel.Name == "end" && deferred {
+							resets["loops"] = true
+						}
+					}
+				}
+				return true
+			})
+		}
+		walk(fd.Body, false)
+		for f := range sets {
+			if _, seen := restores[f]; !seen {
+				restores[f] = true
+			}
+			if !resets[f] {
+				restores[f] = false
+			}
+		}
+	}
+	var restoreFields []string
+	for f := range restores {
+		restoreFields = append(restoreFields, f)
+	}
+	sort.Strings(restoreFields)
+	var restorePairs []string
+	for _, f := range restoreFields {
+		v := "false"
+		if restores[f] {
+			v = "true"
+		}
+		restorePairs = append(restorePairs, "("+leanStr(f)+", "+v+")")
+	}
 	// --- compiler.Compile
-	comp := c18FindFunc(parse("compiler/compiler.go"), "Compiler", "Compile")
+	comp := c18FindFunc(compFile, "Compiler", "Compile")
 	seen := map[string]bool{}
 	ast.Inspect(comp, func(n ast.Node) bool {
 		if as, ok := n.(*ast.AssignStmt); ok {
@@ -144,6 +269,9 @@ func c18_genC18(repo string) string {
 	s += "/-- the resetState argument (*VirtualMachine).Run passes to runCodeInternal -/\ndef runResetsState : Bool := " + reset + "\n\n"
 	s += "/-- reloadCode copies the old Globals slice into the newly loaded main code -/\ndef reloadCopiesGlobals : Bool := " + b(copies) + "\n\n"
 	s += "/-- everything (*Compiler).Compile assigns through its receiver -/\ndef compileAssigns : List String := " + q(assigns) + "\n\n"
+	s += "/-- per compile-only field of compiler.go: every compile function that sets it resets it in a deferred function -/\ndef compileOnlyRestores : List (String × Bool) := [" + strings.Join(restorePairs, ", ") + "]\n\n"
+	s += "/-- (*VirtualMachine).start clears vm.halt unconditionally (top level of its body) -/\ndef startClearsHaltUnconditionally : Bool := " + b(clearsHalt) + "\n\n"
+	s += "/-- runCodeInternal loads every function constant of the code on every run (loop at the top level of its body) -/\ndef loadsFunctionConstantsEveryRun : Bool := " + b(loadsEveryRun) + "\n\n"
 	s += "end Risor.Generated.C18\n"
 	return s
 }
